@@ -140,7 +140,7 @@ Proof.
   { unfold var_ty in *. destruct (PositiveMap.find _ kinds); [|discriminate]. injection Ev as <-. reflexivity. }
   destruct (H _ _ H1 _ Ev1) as (h & Hh & Uh & Sh).
   assert (E13 : ext s1 s3) by (eapply ext_trans; eassumption).
-  destruct E13 as (_ & _ & _ & E4). destruct (E4 _ _ Hh Uh) as (h' & Hh' & Sh').
+  destruct E13 as (_ & _ & _ & E4 & _). destruct (E4 _ _ Hh Uh) as (h' & Hh' & Sh').
   unfold or_else_err.
   assert (N : notok ((unify (gfix g) (v_def v) t st ;;; ret tt) s3)).
   { apply bind_notok_l. apply (unify_rejects g _ t st s3 h' _ W3 Hh' Hst); [eapply same_shape_known; eassumption|reflexivity|].
